@@ -130,6 +130,11 @@ func (s *JSchema) AddType(name string, sc schema.Schema) (err error) {
 			return errs.ErrLoadError.F(err)
 		}
 
+		if typ.Inner.RootNode() == nil {
+			// The text of the type is empty or contains only comments.
+			return kit.NewJSchemaError(typ.File, errs.ErrEmptySchema.F())
+		}
+
 		s.Inner.AddNamedType(name, typ.Inner, typ.File, 0)
 		s.UserTypeCollection[name] = typ
 	case *regex.RSchema:
